@@ -204,7 +204,9 @@ const TS_PRELUDE = "import { defineComponent, SetupContext } from 'vue';\nconst 
 function itemSrc(item, i) {
   if (item.t) return T[item.t](i);
   if (item.d) return D[item.d].tpl(i);
-  return K[item.k](i, L[item.l].J);
+  // every occurrence of a lowering calls its own instance of the environment functions (fi(i), gi(i)), so that two
+  // occurrences sharing one generated temporary are told apart
+  return K[item.k](i, L[item.l].J.replace(/\bf\(\)/g, `fi(${i})`).replace(/\bg\(\)/g, `gi(${i})`));
 }
 function itemKey(item) { return item.t ? 'T:' + item.t : item.d ? 'D:' + item.d : `${item.k}∘${item.l}`; }
 const T_JSX = new Set(['dcJsxDefault', 'dcJsxDynDefault', 'dcProps', 'dcEmits', 'typedArrow', 'genericArrow', 'asyncTyped']);
@@ -212,12 +214,12 @@ const T_DC = new Set(['dcNoArgs', 'dcOddArgs', 'dcDupAny', 'dcInterUnknown', 'dc
 function itemHasJsx(item) { return item.t ? T_JSX.has(item.t) : item.d ? !!D[item.d].jsx : true; }
 function itemAugmentable(item) { return !!item.t && T_DC.has(item.t); }
 
-const PRELUDE = 'const { Comp, B, nsx, s1, h1, c1, x, y, c, f, g } = __env.bound;\nconst idf = (v) => v;\nconst idt = (s, ...v) => v[0];\nclass Box { constructor(v) { this.v = v; } }\nlet xx = __env.bound.xx;\nlet yy = __env.bound.yy;\nlet mv = __env.mv0;\n';
+const PRELUDE = 'const { Comp, B, nsx, s1, h1, c1, x, y, c, f, g, fi, gi } = __env.bound;\nconst idf = (v) => v;\nconst idt = (s, ...v) => v[0];\nclass Box { constructor(v) { this.v = v; } }\nlet xx = __env.bound.xx;\nlet yy = __env.bound.yy;\nlet mv = __env.mv0;\n';
 
 function renderHistory(items, ts) {
   return (ts ? TS_PRELUDE : '') + PRELUDE + items.map((it, i) => itemSrc(it, i)).join('\n') + '\n';
 }
-function renderAlone(item) { return PRELUDE + itemSrc(item, 0) + '\n'; }
+function renderAlone(item, i = 0) { return PRELUDE + itemSrc(item, i) + '\n'; }
 
 function makeEnv() {
   const names = new Names();
@@ -227,6 +229,7 @@ function makeEnv() {
     Comp: comp('Comp'), B: comp('B'), nsx: { div: comp('nsx.div') }, s1: { id: 's1id', class: 's1c' }, h1: names.reg(() => {}, 'h1'), c1: 'c1cls',
     x: 'xval', y: 'yval', xx: vn('xxnode'), yy: 'yyval', c: true,
     f: names.reg(() => vn('fres'), 'f'), g: names.reg(() => 'gres', 'g'),
+    fi: names.reg((i) => vn('fres' + i), 'fi'), gi: names.reg((i) => 'gres' + i, 'gi'),
   };
   // stub for a configured pragma (`hh`): same observable record as createVNode
   const hh = (type, props, children) => ({ __v_isVNode: true, type, props: props || null, children: children === undefined ? null : children, dirs: null });
